@@ -239,7 +239,7 @@ def _inside(n, anc):
 
 
 def ob_wig_tiling(ctx, res):
-    fn = ctx.ast.fn(WW, "process_val_zoom")
+    fn = ctx.ast.fn(WW, "process_val_zoom", inline=True, keep=("encode_zoom_section",))
     cur = [i for i, (nm, ty) in enumerate(fn.params) if ty == "Value"]
     if len(cur) != 1:
         res.fail("wigTiling/sig", fn, "signature not recognised")
@@ -255,7 +255,7 @@ def _mk(f, s, at):
 
 
 def ob_bed_tiling(ctx, res):
-    fn = ctx.ast.fn(BW, "process_val_zoom")
+    fn = ctx.ast.fn(BW, "process_val_zoom", inline=True, keep=("encode_zoom_section",))
 
     def seg_bound(which):
         def ok(f, s, at):
